@@ -204,12 +204,32 @@ def codec_hooks(rep: Report, prog: Program) -> None:
     for the encoder.  codecs_installed must set each of the implicit ones and put each back."""
     fi = prog.func("json.codecs_installed")
     hooks = ("json._default_encoder", "json._default_decoder", "json.loads.__kwdefaults__['object_hook']")
-    fin = [t for t in ast.walk(fi.node) if isinstance(t, ast.Try) and t.finalbody]
+    jm = prog.module("json")
+
+    def stores_of(fn: ast.AST) -> Dict[str, List[ast.AST]]:
+        out_: Dict[str, List[ast.AST]] = {}
+        for n in ast.walk(fn):
+            if isinstance(n, ast.Assign):
+                for t in n.targets:
+                    k = ast.unparse(t).replace('"', "'")
+                    if k in hooks:
+                        out_.setdefault(k, []).append(n)
+        return out_
+    fin_nodes = {id(x) for t in ast.walk(fi.node) if isinstance(t, ast.Try) and t.finalbody for b in t.finalbody for x in ast.walk(b)}
+    phase: Dict[str, Set[str]] = {h: set() for h in hooks}
+    for h, ns in stores_of(fi.node).items():
+        for n in ns:
+            phase[h].add("restore" if id(n) in fin_nodes else "install")
+    # one level of helpers in the same module (`_install_codecs()`, `_restore_codecs(originals)`)
+    for c in ast.walk(fi.node):
+        if isinstance(c, ast.Call) and isinstance(c.func, ast.Name):
+            hq = jm.functions.get(c.func.id)
+            if hq and hq in prog.functions:
+                for h in stores_of(prog.functions[hq].node):
+                    phase[h].add("restore" if id(c) in fin_nodes else "install")
     for h in hooks:
-        stores = [n for n in ast.walk(fi.node) if isinstance(n, ast.Assign) and any(ast.unparse(t).replace('"', "'") == h for t in n.targets)]
-        restored = any(n in list(ast.walk(ast.Module(body=t.finalbody, type_ignores=[]))) for t in fin for n in stores)
-        installed = [n for n in stores if not any(n in list(ast.walk(ast.Module(body=t.finalbody, type_ignores=[]))) for t in fin)]
-        rep.check("R15.11", f"codecs_installed:{h}", bool(installed) and restored,
+        installed, restored = "install" in phase[h], "restore" in phase[h]
+        rep.check("R15.11", f"codecs_installed:{h}", installed and restored,
                   f"codecs_installed {'does not set' if not installed else 'does not restore'} {h}: " +
                   ("json.load(fp) and json.loads(text, object_hook=None) go through json._default_decoder and would return plain dicts"
                    if "decoder" in h else "values handed to the standard json functions are not encoded/decoded on that route"), fi.where())
